@@ -234,3 +234,27 @@ PROPS["C08"] = dict(
     ],
     assumptions=["Rio's token acceptors are as transcribed in coq/C08/Tokens.v (third-party code, read by hand)"],
 )
+
+_C05_MODEL = [
+    "model coq/C05/Model.v of c14n/src/{rdfc10,_permutations,_cnq,_c14n_term}.rs (hand-written); BTreeMaps as key-sorted association lists, BnodeIssuer as its issue-ordered pair list",
+    "hash function = recorded table of SHA-256/384 (concatenated update arguments -> hex) handed to the model; a table miss yields a non-hex sentinel; every theorem is for an arbitrary hash function H",
+    "sort_unstable modelled by insertion sort (exact for Strings; for hash path lists: what core does for len <= 20)",
+    "depth_factor as thousandths (grid values exact in f32); strings as code points (UTF-8 order = code point order)",
+    "oracle: sophia's N-Quads parser, isomorphic_datasets (C07), an independent Rust transcription of RDFC-1.0 with sophia's permutation order",
+    "case files pack strings into Uint63 literals (Coq primitive ints, evaluation only)",
+]
+PROPS["C05"] = dict(
+    level="proof", translators=[translate.gen_consts], runs=[dict(bin="c05")],
+    quick=dict(n=600, shards=16),
+    thorough=dict(n=8000, shards=64, args=["--thorough"], run_timeout=3000, coq_case_timeout=3000),
+    trusted_base=_C05_MODEL,
+    assumptions=["datasets well-formed (wf_quad: IRIs without '>', labels/tags without space, IRI predicates, graph names IRI or blank)",
+                 "invariance proved under no-top-ties (relabelling) or distinct first-degree hashes (relabelling + order); unrestricted invariance refuted for RDFC-1.0 itself (known finding)"],
+)
+PROPS["C06"] = dict(
+    level="proof", translators=[translate.gen_consts], runs=[dict(bin="c06")],
+    quick=dict(n=400, shards=16),
+    thorough=dict(n=12000, shards=64, args=["--thorough"], run_timeout=3000, coq_case_timeout=3000),
+    trusted_base=_C05_MODEL + ["coq/C06/Model.v: RDFC-1.0 sections 4.4-4.8 and canonical N-Quads transcribed from the Recommendation (from memory, no network), the orders it leaves open taken as Heap's order / label order / stable ties"],
+    assumptions=["well-formed datasets; the specification's escape table does not include the XML-Char clause of RDF 1.2 N-Quads (U+FFFE/U+FFFF), which could not be checked offline"],
+)
